@@ -20,7 +20,7 @@ def run(ck, tier):
     ck.rule("R-C04-units", "byte offsets never reach a char-indexed sink unconverted: tree-sitter byte ranges pass byte_spans_to_char_spans (against the very text that was parsed) before they become a Mask or index the source; in Markdown::parse no Span / slice index / shift derives from a pulldown-cmark byte range except through chars().count(); Typst spans are built from OffsetCursor.char, never .byte; in every front-end crate no byte length or byte position of a str/String (len, find, rfind, char_indices ...) reaches Span::new / new_with_len / push_by / pull_by or an index into the char source unless it went through chars().count() (lengths of ASCII literals excepted); the Typst translator hands the English lexer only verbatim source text (ast::Text::get, SyntaxNode::text), never an accessor that resolves escapes")
     ck.rule("R-C04-filter", "what is offered to the English lexer: Markdown::parse calls the English parser only in the Text event and never under a CodeBlock tag; Code/InlineMath/DisplayMath/Html/InlineHtml events and code-block text push only Unlintable tokens; comment/HTML node conditions test the node kind against \"comment\" / \"text\"; CommentMasker filters every allowed span through the ignore predicate")
     ck.rule("R-C04-rebase", "per-line comment parsers and Mask::parse re-base inner tokens by the start of the cut (rule instances of R-C02-rebase)")
-    ck.not_decided += ["that the tree-sitter grammars classify comments correctly", "without_initiators character classes", "Literate Haskell state machine semantics", "pulldown-cmark's event ranges"]
+    ck.not_decided += ["that the tree-sitter grammars classify comments correctly", "without_initiators character classes", "Literate Haskell: ill-formed files (a bird track that does not follow a blank line, \\end{code} outside a block)", "pulldown-cmark's event ranges"]
     p = facts.load()
     byk = fns_by_key(p)
     _ts_units(ck, p, byk)
@@ -29,6 +29,7 @@ def run(ck, tier):
     _conditions(ck, p, byk)
     _byte_lengths(ck, p)
     _typst_verbatim(ck, p)
+    _lhs(ck, p, byk)
     c02._rebase_cut(c05._Sub(ck, "R-C04-rebase", ""), p, byk)
     c02._rebase_acc(c05._Sub(ck, "R-C04-rebase", ""), p, byk)
 
@@ -443,6 +444,52 @@ SPAN_SINKS = ("harper_core::span::{impl}::new", "harper_core::span::{impl}::new_
               "harper_core::span::{impl}::pushed_by", "harper_core::span::{impl}::pulled_by")
 
 
+def _str_base(f, pv, op):
+    """the owned String / &str local a str-typed operand is a plain view of (deref, as_str, borrow, re-borrow)"""
+    pl = place_of(op)
+    if not pl:
+        return None
+    l = pl[0]
+    for _ in range(8):
+        ds = [(k, x) for (b2, si, k, x) in pv.defs.get(l, [])]
+        nxt = None
+        for k, x in ds:
+            if k == "assign" and x["rv"]["k"] == "ref":
+                nxt = x["rv"]["place"][0]
+            elif k == "assign" and x["rv"]["k"] == "use" and place_of(x["rv"]["op"]):
+                nxt = place_of(x["rv"]["op"])[0]
+            elif k == "call" and method(x) in ("deref", "as_str", "as_ref", "borrow", "as_mut_str") and place_of(x["args"][0]):
+                nxt = place_of(x["args"][0])[0]
+        if nxt is None or nxt == l or len(ds) != 1:
+            return l
+        l = nxt
+    return l
+
+
+def _ascii_proved(f, pv, cfg, recv_op, use_bb):
+    """is the string whose byte length is taken known to be ASCII where it is used?  Accepted evidence: the
+    very same string (no transformation in between) is the receiver of a `parse::<number>()` whose Ok arm, or of
+    an `is_ascii()` whose true edge, dominates the use - a successful numeric parse implies ASCII."""
+    base = _str_base(f, pv, recv_op)
+    if base is None:
+        return False
+    for bi, t in f.calls():
+        m = method(t)
+        if m not in ("parse", "is_ascii", "from_str_radix", "from_str") or not t["args"]:
+            continue
+        if _str_base(f, pv, t["args"][0]) != base:
+            continue
+        if m in ("from_str_radix", "from_str") and not re.search(r"core::num::|core::str::traits::FromStr|num::dec2flt", norm(inst_of(t) or def_of(t) or "")):
+            continue
+        if m == "parse":
+            ty = " ".join(f.ty(x)["s"] for x in t["f"].get("targs", []))
+            if not re.search(r"\b(f32|f64|u8|u16|u32|u64|u128|usize|i8|i16|i32|i64|i128|isize)\b", ty):
+                continue
+        if cfg.dominates(bi, use_bb) and bi != use_bb:
+            return True
+    return False
+
+
 def _byte_lengths(ck, p):
     rule = "R-C04-units"
     n_fns = n_sinks = n_src = 0
@@ -460,16 +507,21 @@ def _byte_lengths(ck, p):
                 sinks += [(t, a, last(i)) for a in t["args"]]
             elif method(t) in ("index", "index_mut", "get") and len(t["args"]) > 1 and "[char]" in f.local_tystr(place_of(t["args"][0])[0] if place_of(t["args"][0]) else 0).replace("Vec<char>", "[char]"):
                 sinks.append((t, t["args"][1], "index into the char source"))
-        # struct literal Span { start, end }
-        for b in f.blocks:
+        # struct literal Span { start, end }; FoundToken { next_index } (a char count the lexer loop trusts)
+        for bi_, b in enumerate(f.blocks):
             for sx in b["s"]:
                 if sx["k"] == "assign" and sx["rv"]["k"] == "agg" and sx["rv"].get("name", "").endswith("span::Span"):
-                    sinks += [({"ln": sx["ln"]}, o, "Span{..}") for o in sx["rv"]["ops"]]
+                    sinks += [({"ln": sx["ln"], "bb": bi_}, o, "Span{..}") for o in sx["rv"]["ops"]]
+                if sx["k"] == "assign" and sx["rv"]["k"] == "agg" and sx["rv"].get("name", "").endswith("lexing::FoundToken"):
+                    fl = dict(zip(sx["rv"].get("fields", []), sx["rv"]["ops"]))
+                    if "next_index" in fl:
+                        sinks.append(({"ln": sx["ln"], "bb": bi_}, fl["next_index"], "FoundToken.next_index"))
         if not sinks:
             continue
         n_fns += 1
         n_sinks += len(sinks)
         pv = Prov(f)
+        cfg_ = Cfg(f)
 
         def tainted(o, depth=0, seen=None):
             seen = set() if seen is None else seen
@@ -487,6 +539,8 @@ def _byte_lengths(ck, p):
                     # the length of an ASCII literal is its char count as well
                     lits = [x for x in flatten(pv.trace_operand(t["args"][0]))] if t["args"] else []
                     if lits and all(x[0] == "const" and all(ord(c) < 128 for c in str(x[1])) for x in lits):
+                        return None
+                    if t["args"] and _ascii_proved(f, pv, cfg_, t["args"][0], o[1]):
                         return None
                     return "%s at %s" % (nm, f.loc(t["ln"]))
                 if nm in PASS:
@@ -584,3 +638,166 @@ def _typst_verbatim(ck, p):
         ck.refuted(rule, "typst-verbatim:%s" % fn, where, "the English lexer receives the *value* of a %s (escapes resolved) but its tokens are placed as if it were the source text: after the first escape every token of the literal sits left of its characters" % recv)
     else:
         ck.proved(rule, "typst-verbatim", "", "%d texts handed to the English lexer: all are verbatim source (ast::Text::get or SyntaxNode::text)" % n)
+
+
+# ---------------------------------------------------------------------------------------------------
+# Literate Haskell: explicit-state check of the line classifier against the literate conventions
+LHS_CLASSES = {"BEGIN": "\\begin{code}", "END": "\\end{code}", "BLANK": "", "BIRD": "> x = 1", "TEXT": "some prose"}
+
+
+def _lhs(ck, p, byk):
+    from ..interp import Interp, Stuck
+    rule = "R-C04-lhs"
+    ck.rule(rule, "Literate Haskell: the masker's per-line state machine is explored exhaustively over abstract lines (\\begin{code}, \\end{code}, blank, bird track, other) with the MIR of create_mask as the transition function (text_only masker), in lock step with the literate conventions (a \\begin{code} block lasts until \\end{code}; a bird block starts at a bird line after a blank line and lasts until a blank line): inside a \\begin{code} block no line is offered as prose, bird lines of a bird block are not prose, and an ordinary line outside any block is offered as prose")
+    fs = [f for f in p.fns.values() if f.name.startswith("harper_literate_haskell::masker::") and last(f.name) == "create_mask"]
+    if not ck.anchor(rule, "LiterateHaskellMasker::create_mask", fs):
+        return
+    f = fs[0]
+    ck.saw(f)
+    cfg = Cfg(f)
+    loops = cfg.natural_loops()
+    nexts = [(bi, t) for bi, t in f.calls() if method(t) == "next" and "Split" in f.local_tystr(place_of(t["args"][0])[0])]
+    if len(nexts) != 1 or not loops:
+        ck.refuted(rule, "anchor-missing:line-loop", f.span, "the loop over source.split('\\n') was not found")
+        return
+    nb, nt = nexts[0]
+    head = [h for h, body in loops.items() if nb in body]
+    head = max(head, key=lambda h: len(loops[h]))
+    body = loops[head]
+    # the Some arm of next()
+    sw = f.blocks[nt["target"]]["t"]
+    some_bb = None
+    if sw["k"] == "switch":
+        for v, x in sw["targets"]:
+            if str(v) == "1":
+                some_bb = x
+    if some_bb is None:
+        ck.refuted(rule, "anchor-missing:line-binding", f.span, "the Some arm of the line iterator was not found")
+        return
+    names = f.debug_names()
+    pv = Prov(f)
+    state_locals = sorted(l for l, n in names.items() if f.local_tystr(l) == "bool"
+                          and any(b2 in body for (b2, si, k, x) in pv.defs.get(l, []))
+                          and any(b2 not in body for (b2, si, k, x) in pv.defs.get(l, [])))
+    init = {}
+    for l in state_locals:
+        ds = [x for (b2, si, k, x) in pv.defs.get(l, []) if b2 not in body and k == "assign"]
+        if len(ds) == 1 and ds[0]["rv"]["k"] == "use" and "k" in ds[0]["rv"]["op"]:
+            init[l] = ds[0]["rv"]["op"]["k"].get("txt") == "true"
+    if len(init) != len(state_locals) or not state_locals:
+        ck.undecided(rule, "create_mask:state", f.span, "loop-carried boolean state not recognised: %s" % [names[l] for l in state_locals])
+        return
+
+    class Done(Exception):
+        pass
+
+    def step(state, cls):
+        text = LHS_CLASSES[cls]
+        pushed = [False]
+
+        def call(t, args):
+            m = method(t)
+            full = norm(inst_of(t) or def_of(t) or "")
+            if m == "next" and "Split" in (f.local_tystr(place_of(t["args"][0])[0]) if place_of(t["args"][0]) else ""):
+                raise Done()
+            if m == "eq" and ("core::str::" in full or "cmp::impls" in full):
+                consts = []
+                for a in t["args"]:
+                    c0 = const_str(a)
+                    if c0 is None:
+                        for o in flatten(pv.trace_operand(a)):
+                            if o[0] == "const":
+                                m0 = re.match(r'^"(.*)"$', str(o[1]), re.S)
+                                if m0:
+                                    c0 = m0.group(1)
+                    if c0 is not None:
+                        consts.append(c0)
+                if len(consts) == 1:
+                    c = consts[0].replace("\\\\", "\\")
+                    return ("bool", text.strip() == c)
+                return ("unknown", "eq")
+            if m == "is_empty" and "core::str::" in full:
+                return ("bool", text.strip() == "")
+            if m == "is_some_and":
+                return ("bool", text.startswith(">"))
+            if full.endswith("mask::{impl}::push_allowed"):
+                pushed[0] = True
+            return ("unknown", "call " + m)
+
+        def read(pl, env):
+            if pl[0] == 1:
+                fl = [e[2] for e in pl[1:] if isinstance(e, list) and e[0] == "f"]
+                if fl == ["text"]:
+                    return ("bool", True)
+                if fl == ["code"]:
+                    return ("bool", False)
+            return None
+        env = {l: ("bool", v) for l, v in zip(state_locals, state)}
+        it = Interp(f, max_steps=3000)
+        try:
+            it.run(env, some_bb, 0, {"call": call, "read": read})
+            raise Stuck("returned from inside the loop body")
+        except Done:
+            pass
+        out = []
+        for l in state_locals:
+            v = env.get(l)
+            if not v or v[0] != "bool":
+                raise Stuck("state variable %s is not a definite boolean after the iteration" % names[l])
+            out.append(v[1])
+        return tuple(out), pushed[0]
+
+    def ghost_step(g, prev_blank, cls):
+        if g == "LATEX":
+            return "OUT" if cls == "END" else "LATEX"
+        if g == "BIRD":
+            return "OUT" if cls in ("BLANK", "END") else "BIRD"
+        if cls == "BEGIN":
+            return "LATEX"
+        if cls == "BIRD" and prev_blank:
+            return "BIRD"
+        return "OUT"
+    start = (tuple(init[l] for l in state_locals), "OUT", False)
+    seen = {start: None}
+    work = [start]
+    viol = []
+    n_trans = 0
+    try:
+        while work:
+            cur = work.pop()
+            st, g, pb = cur
+            for cls in LHS_CLASSES:
+                n_trans += 1
+                st2, pushed = step(st, cls)
+                g2 = ghost_step(g, pb, cls)
+                kind = None
+                if g == "LATEX" and pushed:
+                    kind = "a line inside a \\begin{code} block is offered as prose"
+                elif g == "BIRD" and cls == "BIRD" and pushed:
+                    kind = "a bird-track line of a bird block is offered as prose"
+                elif g == "OUT" and g2 == "OUT" and cls == "TEXT" and not pushed:
+                    kind = "an ordinary line outside any code block is not offered as prose"
+                if kind:
+                    viol.append((kind, cur, cls))
+                nxt = (st2, g2, cls == "BLANK")
+                if nxt not in seen:
+                    seen[nxt] = (cur, cls)
+                    work.append(nxt)
+    except Stuck as e:
+        ck.undecided(rule, "create_mask:state-machine", f.span, "the abstract evaluation of the loop body left the interpreted fragment: %s" % e)
+        return
+    ck.extra["lhs_states"] = len(seen)
+    ck.extra["lhs_transitions"] = n_trans
+    if viol:
+        kind, cur, cls = viol[0]
+        # shortest line sequence leading to the violating configuration
+        path = [cls]
+        x = cur
+        while seen.get(x):
+            x, c = seen[x]
+            path.append(c)
+        path.reverse()
+        ck.refuted(rule, "create_mask:state-machine", f.span, "%s; shortest file that shows it, line by line: %s (masker state %s = %s before the last line)" % (
+            kind, " / ".join(path), [names[l] for l in state_locals], list(cur[0])), {"lines": path})
+    else:
+        ck.proved(rule, "create_mask:state-machine", f.span, "%d reachable (masker state, convention state) pairs, %d transitions; the classification agrees with the literate conventions on all of them (state variables: %s)" % (len(seen), n_trans, [names[l] for l in state_locals]))
